@@ -266,7 +266,7 @@ def _gen_float(draw, spec, mut):
     if mut is not None and mut.take(draw, "float:near"):
         cands = [v + 1.0, v - 1.0, v * (1 + 1e-5) + 1e-5, v * (1 + 1e-4) if v else 1e-300, None, str(v),
                  float("inf"), float("-inf"), float("nan")]
-        if v == int(v) and abs(v) < 2 ** 53:
+        if math.isfinite(v) and v == int(v) and abs(v) < 2 ** 53:
             cands.append(int(v))
         cands += [2 ** 53 + 1, 10 ** 22 + 1]          # whole numbers no float equals
         if "value" in spec:
